@@ -3,6 +3,7 @@ package h
 import (
 	"encoding/json"
 	"fmt"
+	"os"
 	"strings"
 
 	"verif/rt"
@@ -206,6 +207,13 @@ func exploreEvents(c *rt.Ctx, sc PoolScenario, bound, maxExecs int, onExec func(
 		execs++
 		if r.Diverged != "" {
 			c.Add("n_replay_divergences", 1)
+			if os.Getenv("VERIF_DEBUG") != "" {
+				b, _ := json.Marshal(sc)
+				if f, err := os.OpenFile(os.Getenv("VERIF_DEBUG"), os.O_APPEND|os.O_CREATE|os.O_WRONLY, 0644); err == nil {
+					fmt.Fprintf(f, "DIVERGED %s prefix=%v: %s\n", b, prefix, r.Diverged)
+					f.Close()
+				}
+			}
 			c.Cap("a replayed event prefix met a different enabled set (uncontrollable map iteration order inside the pool's retry path); that subtree was skipped")
 			return true
 		}
